@@ -17,7 +17,12 @@ sequence (`Ev`) is a sender history interleaved with an arbitrary delivery sched
 `forgedAck` is an acknowledgement nobody sent; `clientReset` is `Manager::reset`.
 
 The snapshot/delta layer is the parameter `ops : Ops S D` with the laws `Laws ops`:
-`apply a (create a b) = b` (C09), `read (write d) = d` (C10), written deltas are not empty.
+`apply a (create a b) = b` (C09), `read (write d) = d` (C10), written deltas are not empty, and the
+cleared delta means "same as base".  `ops.emptyWhenSame` selects the sender glue: `false` is
+`server/src/main.rs` (always writes the delta, never sends `SnapEmpty`), `true` a protocol-conforming
+sender that sends `SnapEmpty` when the new snapshot equals the base (as the reference server does);
+the theorems cover both, so the `temp_delta.clear()` of `ManagerInner::add_delta` is part of the
+verified model.
 The receiver is the C12 model.  The checksum is not used in the argument.
 -/
 namespace Tw.Props.C13
@@ -155,14 +160,16 @@ theorem exchange_invariant {S D : Type} (ops : Ops S D) (laws : Laws ops)
   exact ⟨hg.clientStored, hg.senderStored, hg.senderDelta, hg.recvOk⟩
 
 /-- The receiver alone: whatever consistent transfers are interleaved in whatever way (newer ticks
-included), a delivery carries exactly the base tick, tick, data and checksum the sender cut up. -/
+included), a delivery carries exactly the base tick, tick, data and checksum the sender cut up (no
+payload for empty data: `SnapEmpty`). -/
 theorem receiver_delivers_only_what_was_sent {xfers : List Xfer} (huniq : UniqueTicks xfers)
     {r : Receiver} (hr : RecvOk xfers r) {x : Xfer} (hx : x ∈ xfers) (hb : inI32 x.base)
-    (hne : x.bytes ≠ []) {ms : List Msg} (hms : x.chunks = .ok ms) {m : Msg} (hm : m ∈ ms) :
+    {ms : List Msg} (hms : x.chunks = .ok ms) {m : Msg} (hm : m ∈ ms) :
     RecvOk xfers (r.step m).1 ∧
       ∀ d, (r.step m).2.1 = .ok (some d) →
-        d = { deltaTick := x.base, tick := x.tick, dataCrc := some (x.bytes, x.crc) } :=
-  recv_step_safe huniq hr hx hb hne hms hm
+        d = { deltaTick := x.base, tick := x.tick,
+              dataCrc := if x.bytes = [] then none else some (x.bytes, x.crc) } :=
+  recv_step_safe huniq hr hx hb hms hm
 
 /-- **No panic (partial).**  The protocol layer (`Storage`, glue, `DeltaReceiver`, `Manager`) has no
 panic of its own: if `Delta::create` succeeds on the snapshot pairs it is given and the delta fits
@@ -189,7 +196,13 @@ theorem no_panic_partial {S D : Type} (ops : Ops S D)
           · exact ⟨_, rfl⟩
           · split <;> exact ⟨_, rfl⟩
         obtain ⟨ms, hms⟩ := hch
-        simp [Sys.step, sendSnap, Storage.addSnap, hd, hbs, hms]
+        have hch0 : ∃ ms0, deltaChunks tick (y.sender.deltaTick.getD (-1)) [] (ops.crc snap) = .ok ms0 :=
+          ⟨_, rfl⟩
+        obtain ⟨ms0, hms0⟩ := hch0
+        by_cases hcond : (ops.emptyWhenSame &&
+            ops.same (y.sender.baseOf ops ({ tick := tick, snap := snap } :: y.sender.snaps)) snap) = true
+        · simp only [Sys.step, sendSnap, Storage.addSnap, hd, if_pos hcond, hms0]; exact ⟨_, rfl⟩
+        · simp only [Sys.step, sendSnap, Storage.addSnap, hd, if_neg hcond, hbs, hms]; exact ⟨_, rfl⟩
       | deliver i =>
         simp only [Sys.step]
         cases y.msgs[i]? <;> exact ⟨_, rfl⟩
@@ -232,11 +245,13 @@ theorem no_panic_witness : ¬ C13_full := by
   intro h
   let ops : Ops Unit Unit :=
     { empty := (), create := fun _ _ => none, write := fun _ => some [0], clear := (),
-      read := fun _ => .ok (), apply := fun _ _ => .ok (), crc := fun _ => 0 }
+      read := fun _ => .ok (), apply := fun _ _ => .ok (), crc := fun _ => 0,
+      same := fun _ _ => false, emptyWhenSame := false }
   have laws : Laws ops :=
     { apply_create := by intro a b d h; cases h
       read_write := by intro d bs _; rfl
-      write_nonempty := by intro d bs h; cases h; simp }
+      write_nonempty := by intro d bs h; cases h; simp
+      same_clear := by intro a b h; cases h }
   obtain ⟨r, hr⟩ := h Unit Unit ops laws [.send 0 ()] (by simp [sendsOk, inI32])
   simp [Sys.run, Sys.step, sendSnap, Storage.addSnap, ops] at hr
 
@@ -289,14 +304,18 @@ example : TableOk (fun t => (Tw.Gen.Snap.objSize_tw06.find? (·.1 == t)).map (·
     intro o n id _ _ h
     simp only [h, Option.getD_some]
 
--- non-vacuity: a lawful snapshot layer exists (snapshot = byte string, delta = the target itself),
+-- non-vacuity: a lawful snapshot layer exists (snapshot = byte string, delta = 1 :: target, cleared
+-- delta = "same as base", protocol-conforming glue),
 -- and histories with increasing ticks satisfy `sendsOk`
-example : Laws ({ empty := [], create := fun _ b => some b, write := fun d => some (0 :: d), clear := [],
-                  read := fun bs => .ok bs.tail, apply := fun _ d => .ok d,
-                  crc := fun s => s.length } : Ops (List UInt8) (List UInt8)) :=
+example : Laws ({ empty := [], create := fun _ b => some (1 :: b), write := fun d => some (0 :: d),
+                  clear := [], read := fun bs => .ok bs.tail,
+                  apply := fun a d => .ok (match d with | [] => a | _ :: t => t),
+                  crc := fun s => s.length, same := fun a b => a == b,
+                  emptyWhenSame := true } : Ops (List UInt8) (List UInt8)) :=
   { apply_create := by intro a b d h; cases h; rfl
     read_write := by intro d bs h; cases h; rfl
-    write_nonempty := by intro d bs h; cases h; simp }
+    write_nonempty := by intro d bs h; cases h; simp
+    same_clear := by intro a b h; simp at h; simp [h] }
 example : sendsOk (S := Nat) none [.send 0 7, .deliver 0, .ack, .deliverAck 0, .send 2147483647 8, .deliver 5] :=
   by simp [sendsOk, inI32]
 
